@@ -479,7 +479,9 @@ func runHist(q request, resp *response) {
 			case r.Panicked:
 				o.Panic = fmt.Sprint(r.Panic)
 			case r.Err != nil:
-				o.Panic = "Run error under try: " + r.Err.Error()
+				// the error went past the script's own try/catch and came out of Run
+				m, _ := json.Marshal(r.Err.Error())
+				o.Res = `{"throw":"escaped-try:` + harness.ErrName(r.Err) + `","msg":` + string(m) + `}`
 			default:
 				o.Res, _ = r.Value.ToString()
 			}
